@@ -61,6 +61,10 @@ struct Run<'a> {
     /// `go`s that were refused while a search was genuinely running (allowed: no answer owed)
     refused_while_running: usize,
     input_blocked_in_join: bool,
+    /// the input thread has not come back from this command (no hook says why): commands after
+    /// it cannot be sent; only the search threads can move. Still blocked when nothing can move
+    /// any more = deadlock.
+    input_blocked_in: Option<String>,
     /// event counts / spawn count at the moment the joining go was sent
     pending_before: Vec<u64>,
     pending_spawned: u64,
@@ -89,7 +93,7 @@ impl<'a> Run<'a> {
                 _ => {}
             }
         }
-        if !self.input_blocked_in_join && self.next_cmd < self.script.len() {
+        if !self.input_blocked_in_join && self.input_blocked_in.is_none() && self.next_cmd < self.script.len() {
             let cmd = &self.script[self.next_cmd];
             // GUI protocol: a new go only after the previous search's bestmove has been printed;
             // `go! ...` is a go the GUI sends regardless (the engine may refuse it while a search
@@ -214,6 +218,14 @@ impl<'a> Run<'a> {
             if began.elapsed() > ARRIVE {
                 if !self.e.alive() {
                     self.obs.complaints.push(format!("engine died while processing '{cmd}'"));
+                } else if self.searches.iter().any(|s| s.state != SearchState::Gone && s.state != SearchState::Lost) {
+                    // a search thread is alive and held by this controller: the command may be
+                    // waiting for it. Go on with the search thread's steps and see.
+                    self.obs.trace.push(format!("input thread is still inside '{cmd}' after {} s: blocked", ARRIVE.as_secs()));
+                    self.input_blocked_in = Some(cmd.clone());
+                    if cmd == "stop" {
+                        // not processed yet: nobody has seen it
+                    }
                 } else {
                     self.obs.machinery = Some(format!("input thread did not finish '{cmd}' within {} s", ARRIVE.as_secs()));
                 }
@@ -290,6 +302,25 @@ impl<'a> Run<'a> {
         match en[choice] {
             Action::ReleaseSearch(i) => {
                 self.release(i);
+                if let Some(cmd) = self.input_blocked_in.clone() {
+                    // has the blocked command come back meanwhile?
+                    self.e.settle(Duration::from_millis(20));
+                    if self.e.event_count("uci.wait_input") > self.wait_inputs {
+                        self.wait_inputs += 1;
+                        self.input_blocked_in = None;
+                        self.obs.trace.push(format!("input thread is back from '{cmd}'"));
+                        if cmd == "stop" {
+                            for s in self.searches.iter_mut() {
+                                if s.state != SearchState::Gone {
+                                    s.stop_seen = true;
+                                }
+                            }
+                        }
+                        if !cmd.starts_with("go") {
+                            self.model.apply(&cmd);
+                        }
+                    }
+                }
                 if self.input_blocked_in_join && self.searches[i].state == SearchState::Gone {
                     // the join can complete now: the go handler goes on to spawn the new search
                     let began = std::time::Instant::now();
@@ -340,6 +371,7 @@ pub fn execute(script: &[String], prefix: &[usize], id: u64) -> Observation {
         searches: vec![],
         refused_while_running: 0,
         input_blocked_in_join: false,
+        input_blocked_in: None,
         pending_before: vec![],
         pending_spawned: 0,
         wait_inputs: 0,
@@ -371,7 +403,12 @@ pub fn execute(script: &[String], prefix: &[usize], id: u64) -> Observation {
         r.obs.readyoks = lines.iter().filter(|l| *l == "readyok").count();
         r.obs.errors = r.e.err.iter().filter(|l| l.contains("Failed to") || l.contains("panicked")).cloned().collect();
         let readys = script.iter().filter(|c| *c == "isready").count();
-        if r.next_cmd == script.len() {
+        if let Some(cmd) = &r.input_blocked_in {
+            r.obs.complaints.push(format!(
+                "deadlock: the command loop never came back from '{cmd}' while no search thread can move without a further command ({}); every later command (a stop included) is never read",
+                r.searches.iter().enumerate().map(|(i, s)| format!("search #{} {:?}", i + 1, s.state)).collect::<Vec<_>>().join(", ")
+            ));
+        } else if r.next_cmd == script.len() {
             // every accepted go is owed exactly one bestmove
             if r.obs.bestmoves.len() != r.searches.len() {
                 r.obs.complaints.push(format!("{} searches were started but {} bestmove lines were printed", r.searches.len(), r.obs.bestmoves.len()));
